@@ -449,7 +449,7 @@ CORPUS = [
         self.compute_outbound_message()
         return self
 
-# add ECC""", """            if len(d["hashed_params"]) == 64: raise WrongGroupError(err)
+# add ECC""", """            if len(d["hashed_params"]) == 63: raise WrongGroupError(err)
         g = self.params.group
         self._started = True
         xy_scalar_bytes = unhexlify(d["xy_scalar"].encode("ascii"))
